@@ -8,8 +8,7 @@
    gain / half power / monotone / pole inside (each Print Assumptions costs ~1 s of every check). *)
 From Coq Require Import Reals List Lra.
 From Coquelicot Require Import Complex.
-From Interval Require Import Tactic.
-From AL Require Import C13.Model C13.Spec C13.Proofs_Base C13.Proofs_Ord1 C13.Proofs_LPHP C13.Proofs_LPHP2 C13.Proofs_Gamma.
+From AL Require Import C13.Model C13.Spec C13.Proofs_Base C13.Proofs_Ord1 C13.Proofs_LPHP C13.Proofs_LPHP2 C13.Proofs_Gamma C13.Proofs_Examples.
 Import ListNotations.
 Open Scope R_scope.
 
@@ -96,11 +95,5 @@ Example C13_lphp_instances :
   (Rabs (lowpass_pole_R 1 - 0.396346) <= 0.000001 /\ half_power_at (lowpass_pole 1) 1 /\
    Rabs (sqrt (1 / 2) - 0.707107) <= 0.000001) /\
   (cos (PI / 2) = 0 /\ lowpass_z_R (PI / 2) = 0 /\ half_power_at (lowpass_z (PI / 2)) (PI / 2)).
-Proof.
-  split; [intros wc [H0 H1]; split; lra|]. split.
-  - split; [unfold lowpass_pole_R, lowpass_pole_x; interval with (i_prec 60)|]. split; [|interval with (i_prec 60)].
-    apply lowpass_pole_half_power. split; [lra|interval with (i_prec 60)].
-  - split; [apply cos_PI2|]. split; [apply lowpass_z_R_half_pi|].
-    apply lowpass_z_half_power. pose proof PI_RGT_0. split; lra.
-Qed.
+Proof. exact lphp_instances. Qed.
 Print Assumptions C13_lphp_instances.
